@@ -13,6 +13,7 @@ pub mod refmodel;
 pub mod catalogue;
 pub mod refmodel_chrono;
 pub mod checks;
+mod selftest;
 mod c01_builtin;
 mod c02_derived;
 mod c05_total;
